@@ -293,6 +293,23 @@ CLAIMED = {
         "note": "Found and fixed: ncmpidiff had no NC_BYTE case in its three dispatches (F-C20-1..3).",
         "design_ref": "DESIGN.md section 3 / C20",
     },
+    "C12": {
+        "technique": "path-sensitive must-pass-through rule (abstract interpretation with the log initialised) on the "
+                     "burst-buffer entry points, control-dependence rule for the log removal, sibling bookkeeping "
+                     "agreement between the two log-append functions, bounded evaluation of the shared-log block-mapping "
+                     "slices; sources parsed with -DENABLE_BURST_BUFFER=1",
+        "text": "Decides structural clauses of burst-buffer transparency on src/drivers/ncbbio (not compiled by the baseline "
+                "build): get_var/get_varn/get_vard, wait, sync, flush, redef and close reach the log flush (or the flushing "
+                "log close) before forwarding to the ncmpio driver on every path with the log initialised; both log files "
+                "are unlinked at close exactly under the delete-on-close hint; ncbbio_log_put_var and _put_varn maintain "
+                "the same bookkeeping and the largest-entry size tracks the amount the data log grows by (the flush buffer "
+                "is sized from it); for bounded (channels, offset, count) the shared-log pread/pwrite move every logical "
+                "byte once at its mapped offset and agree with each other. Equality of the final file with the "
+                "default driver's and read-your-writes for all programs are NOT decided.",
+        "note": "R8.shared is a bounded slice evaluation. Observed, outside the property: in ncbbio_log_flush_core the per-request "
+                "status loop resets j to 0 in every iteration, so every put request of a batch is given stats[0].",
+        "design_ref": "DESIGN.md section 3 / C12",
+    },
 }
 
 NA_REASON = {
